@@ -201,6 +201,15 @@ def has_edges(cfg, r):
     return any(j["reqs"] for j in cfg["jobs"])
 
 
+def has_tight_window(cfg, r):
+    jobs = cfg["jobs"]
+    for i, j in enumerate(jobs):
+        if j["sched"] and j["window"]:
+            if sum(1 for k in range(1, len(jobs)) if jobs[k]["parent"] == i) > j["window"]:
+                return True
+    return False
+
+
 def has_nested(cfg, r):
     return sum(1 for j in cfg["jobs"] if j["sched"]) > 1
 
@@ -249,6 +258,14 @@ PROPS = {
                       "running for a grace period, no event may be logged and no task may be left. Non-trivial = nested "
                       "schedulers present.",
                  nontrivial=has_nested, side=orphan_side),
+    "C07": RProp("C07", 1, [70], profile={"window": 0.9, "exc": 0.4, "cdur": 0.5, "timeout": 0.6, "nested": 0.35, "crit": 0.4,
+                                          "tie": 0.5, "never": 0.15},
+                 rule="C07: after every event the number of direct jobs of each windowed scheduler whose body is executing "
+                      "(entered, not yet left, in the state implied by the events so far; a nested scheduler counts as one "
+                      "while its run lasts) must not exceed jobs_window (monitor chk07); acceptance at level 1 additionally "
+                      "requires a free slot in the parent's own window at every start. Non-trivial = some windowed scheduler "
+                      "has more direct jobs than its window.",
+                 nontrivial=has_tight_window),
     "C14": RProp("C14", 0, [140], profile={"window": 0.6, "exc": 0.4},
                  rule="C14: at every quiescent point and after the run, the public predicates of every job (is_idle, "
                       "is_scheduled, is_running, is_done, result/exception identity) are compared with the state implied "
